@@ -71,10 +71,11 @@ def _drive(solver, op, out):
     out.stats = solver.get_statistics()
 
 
-def run(case, config, op, order=None, detail=False, observers=(), schedule=None, height=None, budget=True):
+def run(case, config, op, order=None, detail=False, observers=(), schedule=None, height=None, budget=True, pb=None):
     """Build a fresh Problem + BacktrackSolver for the case and perform op."""
     out = Outcome()
-    pb = nx.build_problem(case, order)
+    if pb is None:
+        pb = nx.build_problem(case, order)
     try:
         solver = engine(nx.make_solver, pb, config, height if height is not None else nx.needed_height(case, config))
     except EngineError as e:
